@@ -47,7 +47,7 @@ func c08ConcScenarios(up *world.Upstream) []*concScenario {
 			s.CreatedAtNow()
 			rec := httptest.NewRecorder()
 			req := httptest.NewRequest("GET", "http://app.example.com/", nil)
-			if err := open.P.sessionStore.Save(rec, req, s); err != nil {
+			if err := verifSessionStore(open.P).Save(rec, req, s); err != nil {
 				return nil, err.Error()
 			}
 			jar := world.NewJar()
